@@ -37,7 +37,9 @@ class SystemSpec:
             Elems, Tok = instance_constants(m)
             mass = sum(t["mass"] for t in Tok) if all(e["kind"] == "tok" for e in Elems) else 0
             masses.append(mass)
-            comps.append({"elems": Elems, "tok": Tok, "frac": int(p), "mred": 1})
+            # forced targets of the member's stochastic objects (zero-width gaussians), for model checking
+            tg = [int(round(float(e.dist.par[0]) * 1000)) if (not hasattr(e, "items") and e.dist is not None and e.dist.fam == "gauss") else 0 for e in m.elems]
+            comps.append({"elems": Elems, "tok": Tok, "frac": int(p), "mred": 1, "tgt": tg})
         fixed = all(x > 0 for x in masses)
         if fixed:
             g = reduce(gcd, masses)
@@ -115,3 +117,19 @@ def validate(spec: SystemSpec, tree: X.Tree, single=False, tag="ens", timeout=60
     leaves = [x for x in r.printed if "leaf" in x]
     return {"error": None, "diags": diags, "reached": r.distinct, "nodes": len(tree.nodes), "leaves": leaves, "states": r.generated,
             "fixed": fixed}
+
+
+def model_check(spec: SystemSpec, tag="ensmc", timeout=900):
+    """TLC on EnsembleMC: all behaviours of the ensemble machine for this system"""
+    comps, fixed = spec.constants()
+    with common.Scratch(tag) as d:
+        with open(os.path.join(d, "MC.tla"), "w") as f:
+            f.write("---- MODULE MC ----\nEXTENDS EnsembleMC\n")
+            f.write("MCComps == " + tla(comps) + "\n")
+            f.write(f"MCSysMass == {int(round(spec.S * 1000))}\n====\n")
+        cfg = os.path.join(d, "MC.cfg")
+        with open(cfg, "w") as f:
+            f.write("SPECIFICATION Spec\nCONSTANTS\n Comps <- MCComps\n SysMass <- MCSysMass\nINVARIANT IStop\nINVARIANT IAccounted\n"
+                    "PROPERTY OnlyCompleteMembers\nPROPERTY AccumulatesMemberMass\nPROPERTY Termination\n")
+        r = run_tlc(d, "MC", cfg=cfg, workers=2, timeout=timeout, xmx="3g")
+    return r
